@@ -35,7 +35,7 @@ from harness import tlc, vloop  # noqa: E402
 SPEC_DIR = "/verif/specs/embed"
 LEVEL = "model_checking"
 ENGINE = "VerifEmbed"
-HANG_S = 20  # wall-clock backstop per execution (a non-yielding loop in the code under test)
+HANG_S = 8  # wall-clock backstop per execution (a non-yielding loop in the code under test)
 
 
 # ------------------------------------------------------------------ fake embedding engine
@@ -619,29 +619,51 @@ def execute_build(s, scratch):
         run.loop = loop
         idx = BasicEmbeddingsIndex(embedding_model="fake", embedding_engine=ENGINE, cache_config=ccfg,
                                    use_batching=s["batching"], max_batch_size=s["mb"], max_batch_hold=float(s["hold"]))
+        idx._current_batch_submitted = _LogEvent(run)  # spin guard only (log unused)
         if s["pre"]:
             await idx._get_embeddings(list(s["pre"]))
         items = [IndexItem(text=t, meta={"i": i}) for i, t in enumerate(INDEX_ITEMS)]
-        if s["via"] == "add_items":
-            await idx.add_items(items)
-        else:
-            for it in items:
-                await idx.add_item(it)
+        try:
+            if s["via"] == "add_items":
+                await idx.add_items(items)
+            else:
+                for it in items:
+                    await idx.add_item(it)
+        except Exception as ex:
+            out["err"] = type(ex).__name__
+            return
         out["vecs"] = [vkey(v) for v in idx._embeddings]
         await idx.build()
 
         async def q(text):
-            return [it.text for it in await idx.search(text)]
+            try:
+                return [it.text for it in await idx.search(text)]
+            except Exception as ex:  # the request did not complete with a result
+                return ["<error %s>" % type(ex).__name__]
 
         if s["concurrent"]:
-            out["got"] = await asyncio.gather(*[q(t) for t in s["queries"]])
+            got = await asyncio.gather(*[q(t) for t in s["queries"]], return_exceptions=True)
+            for x in got:
+                if isinstance(x, BaseException):
+                    raise x
+            out["got"] = got
         else:
             out["got"] = [await q(t) for t in s["queries"]]
 
     CUR = run
+    dead = hang = False
+    oldh = signal.signal(signal.SIGALRM, _on_alarm)
+    signal.setitimer(signal.ITIMER_REAL, HANG_S)
     try:
-        _, dead = vloop.run(main)
+        try:
+            _, dead = vloop.run(main)
+        except Hang:
+            hang = True
+        except Spin:
+            pass
     finally:
+        signal.setitimer(signal.ITIMER_REAL, 0)
+        signal.signal(signal.SIGALRM, oldh)
         CUR = None
         if cdir:
             shutil.rmtree(cdir, ignore_errors=True)
@@ -652,13 +674,15 @@ def execute_build(s, scratch):
 
     want, _ = vloop.run(refq)
     ev = [_ev("lstart", c=1, texts=list(INDEX_ITEMS), call=list(INDEX_ITEMS)),
-          _ev("lret", c=1, call=list(INDEX_ITEMS), vecs=out.get("vecs", []), fin="vecs" in out)]
+          _ev("lret", c=1, call=list(INDEX_ITEMS), vecs=out.get("vecs", []), fin="vecs" in out, err=out.get("err", ""))]
     for i, t in enumerate(s["queries"]):
         exp.append({"r": i + 1, "got": (out.get("got") or [[]] * len(s["queries"]))[i], "exp": want[i]})
     # the list-call events here are a summary of the public calls (not a step trace): judged, not
     # validated against EmbedBatch actions -> marked nostep
     return {"n": 0, "texts": [], "lists": [list(INDEX_ITEMS)], "pre": [], "full": True, "ev": ev,
-            "deadlock": dead or "got" not in out, "spin": False, "hang": False, "search": exp, "nostep": True}
+            "deadlock": bool(dead or ("got" not in out and not run.spin and not hang and "err" not in out)),
+            "spin": run.spin, "hang": hang,
+            "search": exp, "nostep": True}
 
 
 _scratch = None
@@ -757,6 +781,15 @@ MC_CFG = ('CONSTANTS N = %d\nNL = %d\nMaxBatch = %d\nCacheMode = "%s"\nEmbed <- 
           'QueueHasRunner NoLeak CacheSound TypeOK\nPROPERTY Completion\n')
 
 
+def _violated(r):
+    """Invariant / property names TLC reports as violated (incl. the liveness wording)."""
+    import re
+    v = set(r.violated) | set(re.findall(r"Temporal property (\S+) was violated", r.out))
+    if not v and r.errors:
+        v = set(x[:120] for x in r.errors)
+    return sorted(v)
+
+
 def mc_instances(quick):
     modes = ("off", "ephemeral", "persistent")
     if quick:
@@ -798,7 +831,8 @@ def run(ctx):
 
     # ---- 2. code -> traces: the real index on the virtual-time loop
     scheds = universe(quick) + build_cases(quick)
-    ctx.log("universe: %d schedules (+ plain/instrumented double runs), repo=%s" % (len(scheds), REPO))
+    import nemoguardrails.embeddings.basic as _b
+    ctx.log("universe: %d schedules (+ plain/instrumented double runs), code under test: %s" % (len(scheds), _b.__file__))
     work = list(enumerate(scheds))
     csz = 150 if quick else 600
     chunks = [work[i:i + csz] for i in range(0, len(work), csz)]
@@ -891,17 +925,22 @@ def run(ctx):
     # ---- collect the model-checking runs
     states = trans = 0
     design = {}
+    design_bad = []
     for f in mc_fut:
         inst, r = f.result()
         states += r.distinct
         trans += r.generated
         name = "N=%d,NL=%d,MaxBatch=%d,%s" % inst
         design[name] = {"states": r.distinct, "transitions": r.generated, "wall_s": round(r.wall, 1),
-                        "verdict": "holds" if r.ok else "violated: %s" % sorted(set(r.violated))}
+                        "verdict": "holds" if r.ok else "violated: %s" % _violated(r)}
         if not r.ok:
-            ctx.note("design-level: EmbedBatch instance %s violates %s" % (name, sorted(set(r.violated))))
+            design_bad.append(name)
+            ctx.note("design-level: EmbedBatch instance %s violates %s" % (name, _violated(r)))
             print(tlc.counterexample(r.out)[:3000])
     mc_pool.shutdown()
+    for name in design_bad:
+        print("DRIFT C19 design-level: EmbedBatch itself violates its properties on %s (spec to be corrected, or code + spec both wrong)" % name)
+    ctx.drift += len(design_bad)
     ctx.log("model checking: %d instances, %d states, %d transitions" % (len(insts), states, trans))
     if not samples:
         first = next(iter(sorted(distinct)))
